@@ -157,7 +157,10 @@ def run(rep, tier, seed):
                 ci += 1
                 cs = {"id": cid, "inputrc": ("set editing-mode vi\n" if mainkm.startswith("vi") else ""), "prompt": "", "w": 80, "h": 24,
                       "clearkm": sorted({mainkm, km}), "binds": binds, "wrap": "none",
-                      "probes": sorted({e["cmd"] for e in full if e["cmd"] and e["cmd"] != "probe-setlocal"}), "sessions": [sess]}
+                      # (commands are also registered under the NAMES the macro bodies spell: a macro body is keys, never a command)
+                      "probes": sorted({e["cmd"] for e in full if e["cmd"] and e["cmd"] != "probe-setlocal"} |
+                                       {bytes(e["body"]).decode("latin1") for e in full if e["macro"] and all(32 < k < 127 for k in e["body"])}),
+                      "sessions": [sess]}
                 if local:
                     cs["local"] = km
                 cases.append(cs)
